@@ -429,7 +429,10 @@ def compare_wf(src, dst, fmt, seed, offgrid=False, src_pred=None):
     if len(src.atnums) != len(dst.atnums) or not np.array_equal(np.asarray(src.atnums), np.asarray(dst.atnums)):
         out.append(("nuclei", f"atnums {list(src.atnums)} -> {list(dst.atnums)}"))
         return out
-    ctol = 1e-6 if (fmt == "molekel" and offgrid) else 2e-8
+    # printed digits of the coordinates: fchk 16.8E, wfn 12.8f, wfx .14E, molden 25.18f, mkl 6 decimals in angstrom
+    cmax = max(1.0, float(np.abs(np.asarray(src.atcoords)).max()))
+    ctol = {"fchk": 1e-8 * cmax, "wfn": 1e-8, "wfx": 1e-12 * cmax, "molden": 1e-12,
+            "molekel": 1.1e-6 if offgrid else 1e-8 * cmax}[fmt]
     if np.abs(np.asarray(src.atcoords) - np.asarray(dst.atcoords)).max() > ctol:
         out.append(("nuclei", "coordinates moved by %.2e" % np.abs(np.asarray(src.atcoords) - np.asarray(dst.atcoords)).max()))
         return out
@@ -443,8 +446,8 @@ def compare_wf(src, dst, fmt, seed, offgrid=False, src_pred=None):
     m0, m1 = mo_view(src.mo), mo_view(dst.mo)
     # spin-orbital lists
     expand = False
-    if m0["kind"] == "restricted" and src.mo.occs_aminusb is not None:
-        # every wavefunction format announces a conversion to unrestricted orbitals for this case
+    if m0["kind"] == "restricted" and src.mo.occs_aminusb is not None and fmt != "fchk":
+        # Molden, Molekel, WFN and WFX announce a conversion to unrestricted orbitals for this case (FCHK keeps them)
         expand = True
         v0 = np.concatenate([v0, v0], axis=1)
         a0 = np.concatenate([a0, a0], axis=1)
@@ -754,7 +757,7 @@ def plain_source(data, fmt):
         for j, (a, k) in enumerate(zip(angs, kinds)):
             shells.append((ic, [a], [k], exps, [[row[j]] for row in coeffs]))
     C = np.asarray(data.mo.coeffs, float)
-    if data.mo.kind == "restricted" and data.mo.occs_aminusb is not None:
+    if data.mo.kind == "restricted" and data.mo.occs_aminusb is not None and fmt != "fchk":
         C = np.concatenate([C, C], axis=1)
     return {"atcoords": np.asarray(data.atcoords, float), "shells": shells, "conv": conv, "C": C}
 
@@ -869,6 +872,12 @@ def classify_known(fmt, data, kinds, status, msg, text, back, tabs):
             if status == "load-error" and ghost and ("inconsistent with number of electrons" in (msg or "")
                                                      or "Odd number of electrons" in (msg or "")):
                 return "molekel:charge-from-core-charges-unreadable"
+            if status == "load-error" and not ghost and "inconsistent with number of electrons" in (msg or ""):
+                # exact occupations consistent, the printed ones (7 decimals, integer charge) not within the reader's 1e-7
+                exact = abs(float(m.occs.sum()) - (float(np.sum(data.atnums)) - float(data.charge)))
+                printed = abs(float(np.round(np.asarray(m.occs, float), 7).sum()) - (float(np.sum(data.atnums)) - round(float(data.charge))))
+                if exact < 1e-9 and printed > 1e-7:
+                    return "molekel:printed-occupations-inconsistent"
             if status == "load-error" and m.kind == "restricted" and m.occs_aminusb is None and not ghost:
                 if "Odd number of electrons" in (msg or "") and int(round(float(m.occs.sum()))) % 2 == 1:
                     return "molekel:restricted-odd-electrons-unreadable"
@@ -966,6 +975,9 @@ def run_case(case):
     if data is None or data.mo is None or data.obasis is None or data.mo.kind == "generalized" or data.mo.coeffs is None \
             or data.mo.occs is None or data.mo.energies is None:
         res["cls"] = "not-a-wavefunction"
+        return res
+    if float(np.sum(data.mo.occs)) < 0.5:
+        res["cls"] = "out-of-domain:no-electrons"  # the property quantifies over objects with at least one electron
         return res
     status, back, ec, text, msg = roundtrip(data, fmt, allow)
     if status == "dump-error":
@@ -1123,5 +1135,285 @@ def replay(ctx, obj):
     return res["fail"] is not None
 
 
+# ---- T1: which variant of each writer the source implements (read off the writers by probing them) ----------------
+AIMALL = ("s px py pz dxx dyy dzz dxy dxz dyz fxxx fyyy fzzz fxxy fxxz fyyz fxyy fxzz fyzz fxyz "
+          "gxxxx gyyyy gzzzz gxxxy gxxxz gxyyy gyyyz gxzzz gyzzz gxxyy gxxzz gyyzz gxxyz gxyyz gxyzz "
+          "hzzzzz hyzzzz hyyzzz hyyyzz hyyyyz hyyyyy hxzzzz hxyzzz hxyyzz hxyyyz hxyyyy hxxzzz hxxyzz hxxyyz hxxyyy "
+          "hxxxzz hxxxyz hxxxyy hxxxxz hxxxxy hxxxxx").split()
+AIMALL = ["1" if t == "s" else t[1:] for t in AIMALL]  # primitive type code (1-based) -> unsigned label
+EXPS = [0.25 + 0.125 * i for i in range(12)]
+PRIMES = [2, 3, 5, 7, 11, 13, 17, 19, 23, 29, 31, 37, 41, 43, 47, 53, 59, 61, 67, 71, 73, 79, 83, 89, 97]
+
+
+def _lab_powers(lab):
+    return (0, 0, 0) if lab == "1" else (lab.count("x"), lab.count("y"), lab.count("z"))
+
+
+def tracer_object(t):
+    """t: dict(atn, shells=[(center,l,kind,[(e,d)])], conv, cols=[[int]], kind, norba, norbb, irreps, dm) -> IOData"""
+    from iodata import IOData
+    from iodata.basis import MolecularBasis, Shell
+    from iodata.orbitals import MolecularOrbitals
+
+    natom = t["natom"]
+    shells = [Shell(c, [l], [k], np.array([EXPS[e] for e, _ in pr]), np.array([[float(d)] for _, d in pr]))
+              for c, l, k, pr in t["shells"]]
+    obasis = MolecularBasis(shells, t["conv"], "L2")
+    C = np.array(t["cols"], float).T
+    norb = C.shape[1]
+    if t["kind"] == "restricted":
+        occs = [2.0] + [0.0] * (norb - 1)
+        mo = MolecularOrbitals("restricted", norb, norb, np.array(occs), C, np.arange(norb) * 0.5 - 1.0)
+    else:
+        na, nb = t["norba"], t["norbb"]
+        occs = [1.0] + [0.0] * (na - 1) + [1.0] + [0.0] * (nb - 1)
+        ene = list(np.arange(na) * 0.5 - 1.0) + list(np.arange(nb) * 0.5 - 1.25)
+        mo = MolecularOrbitals("unrestricted", na, nb, np.array(occs), C, np.array(ene),
+                               None if t.get("irreps") is None else np.array([str(i) for i in t["irreps"]]))
+    kw = {}
+    if t.get("dm") is not None:
+        kw["one_rdms"] = {"scf": np.array(t["dm"], float)}
+    coords = np.array([[0.9 * i, 0.3 * (i % 2), -0.4 * i] for i in range(natom)])
+    return IOData(atnums=np.array([1] * natom), atcoords=coords, obasis=obasis, mo=mo, **kw)
+
+
+def dump_text(data, fmt, allow=False):
+    from iodata import dump_one
+
+    fd, path = tempfile.mkstemp(suffix="." + EXT[fmt])
+    os.close(fd)
+    try:
+        with warnings.catch_warnings():
+            warnings.simplefilter("ignore")
+            dump_one(data, path, fmt=fmt, allow_changes=allow)
+        return open(path).read()
+    finally:
+        os.unlink(path)
+
+
+def wfn_rows_line(t, f, col, from_src, tabs_fmt):
+    """The rows of orbital col of a parsed WFN/WFX file with the normalisation divided out, as the driver prints them."""
+    out = []
+    r = 0
+    for c, l, k, pr in t["shells"]:
+        S = t["conv"][(l, "c")]
+        T = tabs_fmt[(l, "c")]
+        for e, _d in pr:
+            for j in range(len(T)):
+                typelab = AIMALL[f["types"][r] - 1]
+                slab = _strip(S[j]) if from_src else typelab
+                eid = min(range(len(EXPS)), key=lambda i: abs(EXPS[i] - f["exps"][r]))
+                a = f["coeffs"][r, col] / norm_cart(EXPS[eid], *_lab_powers(slab))
+                ai = round(a)
+                if abs(a - ai) > 2e-7 * max(1.0, abs(a)):
+                    return f"non-integer row {r}: {a!r}"
+                nx, ny, nz = _lab_powers(slab)
+                out.append(f"{f['centers'][r]}:{typelab}:{eid}:{ai}:{1 + nx + 10 * ny + 100 * nz + 1000 * eid}")
+                r += 1
+    if r != len(f["types"]):
+        return "row count"
+    return ";".join(out)
+
+
+def probe_flags():
+    """Run each writer on a minimal object and read off which variant it implements."""
+    h2d = ["xx", "xy", "xz", "yy", "yz", "zz"]
+    conv = {(0, "c"): ["1"], (1, "c"): ["x", "y", "z"], (2, "c"): h2d}
+    tabs = tabs_cached()
+    flags = {}
+    t = {"natom": 1, "shells": [(0, 2, "c", [(0, 1)])], "conv": conv, "cols": [[1, 2, 3, 4, 5, 6]], "kind": "restricted"}
+    for fmt, key in (("wfn", "wfnScalesFromSource"), ("wfx", "wfxScalesFromSource")):
+        f = (parse_wfn if fmt == "wfn" else parse_wfx)(dump_text(tracer_object(t), fmt))
+        a = wfn_rows_line(t, f, 0, True, tabs[fmt])
+        b = wfn_rows_line(t, f, 0, False, tabs[fmt])
+        if a.startswith("non-integer") == b.startswith("non-integer"):
+            raise ValueError(f"{fmt} writer matches neither/both scale variants: {a} / {b}")
+        flags[key] = not a.startswith("non-integer")
+    t2 = {"natom": 2, "shells": [(1, 0, "c", [(0, 1)]), (0, 0, "c", [(1, 1)])], "conv": conv, "cols": [[1, 2]], "kind": "restricted"}
+    f = parse_molden(dump_text(tracer_object(t2), "molden"))
+    col = [round(x) for x in f["orbs"][0][4]]
+    if col not in ([1, 2], [2, 1]) or [s[0] for s in f["shells"]] != [0, 1]:
+        raise ValueError(f"molden probe: {col} {f['shells']}")
+    flags["moldenRowsFollowSort"] = col == [2, 1]
+    t3 = {"natom": 1, "shells": [(0, 1, "c", [(0, 1)])], "conv": conv, "cols": [[1, 2, 3]] * 5, "kind": "unrestricted",
+          "norba": 3, "norbb": 2, "irreps": [1, 2, 3, 4, 5]}
+    f = parse_mkl(dump_text(tracer_object(t3), "molekel"))
+    labs = [int(x) for x in f["beta"][0]]
+    if labs not in ([3, 4, 5], [4, 5]):
+        raise ValueError(f"molekel probe: beta irreps {labs}")
+    flags["mklBetaIrrepsUseNorbb"] = labs == [3, 4, 5]
+    t4 = {"natom": 1, "shells": [(0, 2, "c", [(0, 1)])], "conv": conv, "cols": [[1, 2, 3, 4, 5, 6]], "kind": "restricted",
+          "dm": [[(i + 1) * (j + 1) + (7 if i == j else 0) for j in range(6)] for i in range(6)]}
+    f = parse_fchk(dump_text(tracer_object(t4), "fchk"))
+    tri = [round(x) for x in f["Total SCF Density"]]
+    D = np.array(t4["dm"])
+    P = convert_rows([(0, [2], ["c"], [1.0], [[1.0]])], conv, tabs["fchk"], np.eye(6))
+    if tri == [int(x) for x in D[np.tril_indices(6)]]:
+        flags["fchkDensitiesConverted"] = False
+    elif tri == [int(round(x)) for x in (P @ D @ P.T)[np.tril_indices(6)]]:
+        flags["fchkDensitiesConverted"] = True
+    else:
+        raise ValueError("fchk probe: density matrix matches neither variant")
+    return flags
+
+
+DOC = {
+    "wfnScalesFromSource": "wfn.py: `get_mocoeff_scales` is called on a basis carrying the source conventions",
+    "wfxScalesFromSource": "wfx.py: same",
+    "moldenRowsFollowSort": "molden.py: coefficient rows re-ordered like the `[GTO]` shells sorted by centre",
+    "mklBetaIrrepsUseNorbb": "molekel.py: beta irreps sliced with `norbb`",
+    "fchkDensitiesConverted": "fchk.py: density matrices converted to the FCHK conventions",
+}
+_FLAGS = None
+
+
+def flags_cached():
+    global _FLAGS
+    if _FLAGS is None:
+        _FLAGS = probe_flags()
+    return _FLAGS
+
+
 def translate(ctx):
-    pass
+    from . import c10
+
+    c10.translate(ctx)  # Gen/Conventions.lean (the format modules' CONVENTIONS tables) is shared with C10
+    flags = flags_cached()
+    body = ["import Iodata.Model.Conv", "namespace Iodata.Gen.Wf"]
+    for k in DOC:
+        body.append(f"/-- {DOC[k]} -/")
+        body.append(f"def {k} : Bool := {'true' if flags[k] else 'false'}")
+    body.append("end Iodata.Gen.Wf\n")
+    ctx.gen_write("Wf", "\n".join(body))
+
+
+# ---- T2: structural correspondence --------------------------------------------------------------------------------
+def _enc_conv(conv):
+    return ";".join(f"{l}{k}=" + ",".join(v) for (l, k), v in sorted(conv.items()))
+
+
+def _enc_shells(shells):
+    return ";".join(f"{c}:{l}:{k}:" + ",".join(f"{e}*{d}" for e, d in pr) for c, l, k, pr in shells)
+
+
+def gen_tracer(rng, fmt, tabs):
+    h2 = tabs["horton2"]
+    natom = rng.choice([1, 2, 3, 4])
+    nshell = rng.choice([1, 2, 3, 4, 5])
+    kinds_for_l = {}
+    shells = []
+    for _ in range(nshell):
+        l = rng.choice([0, 1, 2, 2, 3] + list(range(LMAX[fmt] + 1)))
+        kind = kinds_for_l.setdefault(l, rng.choice("cp")) if (PURE_OK[fmt] and l >= 2) else "c"
+        pr = [(e, rng.choice([1, 2, 3, 4, 5]) * rng.choice([1, 1, -1])) for e in rng.sample(range(len(EXPS)), rng.choice([1, 1, 2, 3]))]
+        shells.append((rng.randrange(natom), l, kind, pr))
+    order = rng.choice(["sorted", "any", "any"])
+    if order == "sorted":
+        shells.sort(key=lambda s: s[0])
+    lm = max(s[1] for s in shells)
+    allkeys = {(l, "c") for l in range(lm + 1)} | ({(l, "p") for l in range(2, lm + 1)} if PURE_OK[fmt] else set())
+    choice = rng.choice(["native", "horton2", "cca", "other-module", "random", "random"])
+    src = tabs[fmt] if choice == "native" else tabs.get(choice) if choice in ("horton2", "cca") else \
+        tabs[rng.choice([f for f in FORMATS if f != fmt])] if choice == "other-module" else None
+    conv = {}
+    for k in sorted(allkeys):
+        conv[k] = list(src[k]) if (src is not None and k in src) else rand_conv(rng, h2[k])
+    nbasis = sum(len(conv[(l, k)]) for _c, l, k, _p in shells)
+    kind = rng.choice(["restricted", "unrestricted"])
+    na = rng.choice([1, 2, 3])
+    nb = rng.choice([1, 2, 3]) if kind == "unrestricted" else na
+    ncol = na + nb if kind == "unrestricted" else na
+    cols = [[rng.choice(PRIMES) * rng.choice([1, -1]) for _ in range(nbasis)] for _ in range(ncol)]
+    t = {"natom": natom, "shells": shells, "conv": conv, "cols": cols, "kind": kind, "norba": na, "norbb": nb,
+         "tags": f"{choice}/{order}/{kind}"}
+    if fmt == "molekel" and kind == "unrestricted" and rng.random() < 0.7:
+        t["irreps"] = list(range(1, ncol + 1))
+    if fmt == "fchk" and nbasis <= 12 and rng.random() < 0.6:
+        m = [[rng.randint(-9, 9) for _ in range(nbasis)] for _ in range(nbasis)]
+        t["dm"] = [[m[i][j] + m[j][i] for j in range(nbasis)] for i in range(nbasis)]
+    return t
+
+
+def correspond(ctx):
+    tabs = tabs_cached()
+    flags = flags_cached()
+    rng = ctx.rng
+    streams = {k: ([], [], [], []) for k in ("wfn", "wfx", "molden", "mkl", "mklirr", "fchk", "fchkd")}
+
+    def add(stream, req, impl, nontrivial, cls):
+        a = streams[stream]
+        a[0].append(req)
+        a[1].append(impl)
+        a[2].append(nontrivial)
+        a[3].append(cls)
+
+    n = ctx.n(60, 1200)
+    for i in range(n * 5):
+        fmt = FORMATS[i % 5]
+        t = gen_tracer(rng, fmt, tabs)
+        try:
+            text = dump_text(tracer_object(t), fmt)
+        except Exception as exc:
+            # a refusal is allowed by the property; the model has nothing to say about it
+            ctx.hist[f"corr-refused:{fmt}:{exc_class(exc)}"] += 1
+            continue
+        sh, cv = _enc_shells(t["shells"]), _enc_conv(t["conv"])
+        centers = [s[0] for s in t["shells"]]
+        native = all(t["conv"][k] == tabs[fmt].get(k) for k in {(s[1], s[2]) for s in t["shells"]})
+        nontriv = (not native) or centers != sorted(centers)
+        ncol = len(t["cols"])
+        col = rng.randrange(ncol)
+        coeffs = ",".join(str(v) for v in t["cols"][col])
+        if fmt in ("wfn", "wfx"):
+            f = (parse_wfn if fmt == "wfn" else parse_wfx)(text)
+            line = wfn_rows_line(t, f, col, flags[f"{fmt}ScalesFromSource"], tabs[fmt])
+            add(fmt, f"{fmt} {sh} {cv} {coeffs}", line, nontriv, t["tags"])
+        elif fmt == "molden":
+            f = parse_molden(text)
+            shells = ",".join(f"{c}:{l}:{'p' if (l in f['pure'] and l >= 2) else 'c'}" for c, l, _e, _c in f["shells"])
+            vals = [x for x in f["orbs"][col][4]]
+            ok = all(abs(x - round(x)) < 1e-9 for x in vals)
+            add("molden", f"molden {sh} {cv} {coeffs}", shells + "|" + (",".join(str(round(x)) for x in vals) if ok else "non-integer"),
+                nontriv, t["tags"])
+        elif fmt == "molekel":
+            f = parse_mkl(text)
+            nb = sum(len(t["conv"][(l, k)]) for _c, l, k, _p in t["shells"])
+            shells = ",".join(f"{ns}:{l}:{'c' if nfn == (l + 1) * (l + 2) // 2 else 'p'}" for ns, nfn, l, _e, _c in f["shells"])
+            if t["kind"] == "unrestricted" and col >= t["norba"]:
+                try:
+                    M = mkl_blocks(f["beta"], nb)[2]
+                    vals = list(M[:, col - t["norba"]])
+                except Exception:  # an unreadable beta block (irreps defect): compare the alpha block instead
+                    col = 0
+                    coeffs = ",".join(str(v) for v in t["cols"][0])
+                    vals = list(mkl_blocks(f["alpha"], nb)[2][:, 0])
+            else:
+                vals = list(mkl_blocks(f["alpha"], nb)[2][:, col])
+            ok = all(abs(x - round(x)) < 1e-9 for x in vals)
+            add("mkl", f"mkl {sh} {cv} {coeffs}", shells + "|" + (",".join(str(round(x)) for x in vals) if ok else "non-integer"),
+                nontriv, t["tags"])
+            if t.get("irreps"):
+                labs = [int(x) for row in f["beta"][:: 2 + nb] for x in row] if f["beta"] else []
+                add("mklirr", f"mklirr {t['norba']} {t['norbb']} {','.join(map(str, t['irreps']))}",
+                    ",".join(map(str, labs)) if labs else "@", t["norba"] != t["norbb"], f"na{t['norba']}nb{t['norbb']}")
+        elif fmt == "fchk":
+            f = parse_fchk(text)
+            nb = f["Number of basis functions"]
+            A = np.array(f["Alpha MO coefficients"]).reshape(-1, nb)
+            if t["kind"] == "unrestricted" and col >= t["norba"]:
+                vals = list(np.array(f["Beta MO coefficients"]).reshape(-1, nb)[col - t["norba"]])
+            else:
+                vals = list(A[col])
+            ok = all(abs(x - round(x)) < 1e-6 for x in vals)
+            add("fchk", f"fchk {sh} {cv} {coeffs}", ",".join(str(round(x)) for x in vals) if ok else "non-integer", not native, t["tags"])
+            if t.get("dm") is not None:
+                tri = f["Total SCF Density"]
+                D = np.zeros((nb, nb))
+                D[np.tril_indices(nb)] = tri
+                D = D + D.T - np.diag(np.diag(D))
+                add("fchkd", f"fchkd {sh} {cv} {';'.join(','.join(str(v) for v in row) for row in t['dm'])}",
+                    ";".join(",".join(str(round(x)) for x in row) for row in D), not native, t["tags"])
+    for k, (reqs, impl, nt, cls) in streams.items():
+        if reqs:
+            ctx.corr(k, reqs, impl, nt, cls)
+    ctx.extra_cov["writer_variants"] = flags
